@@ -259,11 +259,11 @@ static Error exec_act(BaseEmitter* e, Holder& H, int arch, const Act& t) {
 // ---------------------------------------------------------------------------------------------------------
 // op alphabet
 enum OpType { O_INST, O_PREFIX, O_NEWLABEL, O_BIND, O_EMBLABEL, O_DELTA, O_ALIGN, O_EMBED, O_ARRAY, O_CONSTPOOL, O_COMMENT, O_SECTION,
-              O_CUR_FIRST, O_CUR_LAST, O_CUR_PREV, O_CUR_NEXT, O_REMOVE, O_REMOVE_PAIR, O_REINS_AFTER, O_REINS_BEFORE, O_REINS_ADD, O_ADD_CPNODE, O_ADD_LABELNODE };
+              O_CUR_FIRST, O_CUR_LAST, O_CUR_PREV, O_CUR_NEXT, O_REMOVE, O_REMOVE_PAIR, O_REINS_AFTER, O_REINS_BEFORE, O_REINS_ADD, O_ADD_CPNODE, O_ADD_LABELNODE, O_REMOVE_RANGE };
 static bool is_edit(int t) { return t >= O_CUR_FIRST; }
 static const char* op_kind(int t) {
   static const char* n[] = {"inst", "prefix", "new_label", "bind", "embed_label", "embed_label_delta", "align", "embed", "embed_data_array", "embed_const_pool", "comment", "section",
-                            "set_cursor", "set_cursor", "set_cursor", "set_cursor", "remove_node", "remove_nodes", "add_after", "add_before", "add_node", "add_node(ConstPoolNode)", "add_node(LabelNode)"};
+                            "set_cursor", "set_cursor", "set_cursor", "set_cursor", "remove_node", "remove_nodes", "add_after", "add_before", "add_node", "add_node(ConstPoolNode)", "add_node(LabelNode)", "remove_nodes"};
   return n[t];
 }
 struct OpDef { int type; int a, b, c; std::string name; bool small; };
@@ -301,6 +301,14 @@ static void build_ops(int arch) {
   V.push_back(OpDef{O_REINS_ADD, 0, 0, 0, "add_node(removed)", true});
   V.push_back(OpDef{O_ADD_CPNODE, 1, 0, 0, "L2=add_node(new ConstPoolNode pool1)", true});
   V.push_back(OpDef{O_ADD_LABELNODE, 0, 0, 0, "L2=add_node(new LabelNode)", true});
+  // remove_nodes(first,last) over a range of `len` nodes that is placed relative to the cursor: the cursor is the k-th node
+  // of the range (k = 0 first .. len-1 last), the node right before the range (k = -1) or right after it (k = len).
+  // c = 1: member of the extended reduced alphabet of the thorough tier
+  for (int len : {3, 4}) for (int k = -1; k <= len; k++) {
+    snprintf(b, sizeof b, "remove_nodes(%d nodes,cursor@%d)", len, k);
+    bool mid = (len == 3 && (k == -1 || k == 1 || k == 3)) || (len == 4 && (k == 1 || k == 2));
+    V.push_back(OpDef{O_REMOVE_RANGE, len, k, mid ? 1 : 0, b, false});
+  }
 }
 static int find_op(int arch, const std::string& name) {
   for (size_t i = 0; i < g_ops[arch].size(); i++) if (g_ops[arch][i].name == name) return int(i);
@@ -385,6 +393,15 @@ struct Model {
       }
       case O_ADD_CPNODE: { uint32_t l = next_label++; slot[2] = l; label_kind.push_back(1 + op.a); st.lit.b = int(l); st.lit.a = op.a; add_node(label_item(l)); break; }
       case O_ADD_LABELNODE: { uint32_t l = next_label++; slot[2] = l; label_kind.push_back(0); st.lit.b = int(l); add_node(label_item(l)); break; }
+      case O_REMOVE_RANGE: {
+        int first = cur - op.b, last = first + op.a - 1;
+        if (first < 0 || last >= int(list.size())) return false;
+        st.lit.a = first; st.lit.b = last;    // positions of the range ends (the harness walks there from first_node())
+        list.erase(list.begin() + first, list.begin() + last + 1);
+        if (cur >= first && cur <= last) cur = first - 1;      // the cursor moves to the node that precedes the range
+        else if (cur > last) cur -= op.a;
+        break;
+      }
     }
     if (list.empty()) became_empty = true;
     st.cur_after = cur; st.size_after = int(list.size()); st.model_valid_after = !invalid;
@@ -521,6 +538,13 @@ static void run_x(int arch, int cfg, bool compiler, const std::vector<Step>& tr,
           if (e == Error::kOk && n->label_id() != uint32_t(st.lit.b)) e = Error::kInvalidState;
           if (e == Error::kOk) b->add_node(n);
         }
+        break;
+      }
+      case O_REMOVE_RANGE: {
+        BaseNode* first = b->first_node(); for (int k = 0; k < st.lit.a && first; k++) first = first->next();
+        BaseNode* last = first; for (int k = st.lit.a; k < st.lit.b && last; k++) last = last->next();
+        if (!first || !last) { out.desync_at = int(i); out.desync = "the node list is shorter than the edited sequence"; return; }
+        b->remove_nodes(first, last);
         break;
       }
       case O_ADD_LABELNODE: {
@@ -750,24 +774,27 @@ static void explore(int arch, int cfg, std::vector<int>& h, size_t base_len, con
   }
 }
 
-static std::vector<int> alphabet(int arch, bool small_only, bool with_edit, bool with_emit = true) {
+static std::vector<int> alphabet(int arch, bool small_only, bool with_edit, bool with_emit = true, bool with_mid = false) {
   std::vector<int> v;
   for (size_t i = 0; i < g_ops[arch].size(); i++) {
     const OpDef& o = g_ops[arch][i];
     if (is_edit(o.type) ? !with_edit : !with_emit) continue;
-    if (small_only && !o.small) continue;
+    if (small_only && !o.small && !(with_mid && o.type == O_REMOVE_RANGE && o.c == 1)) continue;
     v.push_back(int(i));
   }
   return v;
 }
 
+// kind 3: one section with 7 nodes behind the SectionNode and the cursor in the middle (range removal around the cursor)
 // kind 0: short program with two sections; 1: rich program (deviation base); 2: three sections, links cached, cursor on the
 // trailing (empty) SectionNode - removing / moving that node and switching sections afterwards starts here
 static std::vector<int> base_program(int arch, int kind) {
   bool a = arch == AA64;
   bool rich = kind == 1;
   std::vector<std::string> names;
-  if (kind == 2) names = {a ? "mov x0,x1" : "vaddps xmm1,xmm2,xmm3", "section(1)", "embed(5 bytes)", "section(2)", "section(0)", "section(2)"};
+  if (kind == 3) names = {a ? "mov x0,x1" : "vaddps xmm1,xmm2,xmm3", "bind(L0)", "embed(5 bytes)", "comment()", "align(code,8)", a ? "b.ne L1" : "jz L1", "embed_label(L0,0)",
+                          "set_cursor(prev)", "set_cursor(prev)", "set_cursor(prev)"};
+  else if (kind == 2) names = {a ? "mov x0,x1" : "vaddps xmm1,xmm2,xmm3", "section(1)", "embed(5 bytes)", "section(2)", "section(0)", "section(2)"};
   else if (rich) names = {a ? "mov x0,x1" : "lock inc dword[zbx]", "bind(L0)", a ? "b.ne L1" : "jz L1", a ? "tbl v1.16b,{v2,v3,v4,v5},v6.16b" : "vaddps zmm1{k1}{z},zmm2,zmm3", "section(1)", "embed_label(L0,0)",
                      "embed_label_delta(L0,L1,4)", "section(0)", "align(code,16)", "bind(L1)", a ? "b L0" : "jmp L0", "L2=new_label()", "embed_const_pool(L2,pool2)"};
   else names = {a ? "add x0,x1,x2,lsl 3" : "vblendvps xmm1,xmm2,xmm3,xmm4", "section(1)", "embed(5 bytes)", "section(0)", "bind(L0)", a ? "cbz x1,L0" : "jmp L0"};
@@ -807,12 +834,12 @@ int main(int argc, char** argv) {
   auto optint = [&](const char* k, int d) { return c.opt(k).empty() ? d : atoi(c.opt(k).c_str()); };
   // quick: every op of the full alphabet in every pair; triples only over the reduced alphabet.  thorough: full triples, reduced quadruples.
   int d_full = optint("dfull", th ? 3 : 2), d_small = optint("dsmall", th ? 4 : 3), d_edit = optint("dedit", th ? 4 : 3), d_cfg = optint("dcfg", th ? 2 : 1),
-      d_cfg_small = optint("dcfgsmall", th ? 3 : 2), dev_k = optint("devk", th ? 2 : 1);
+      d_cfg_small = optint("dcfgsmall", th ? 3 : 2), d_range = optint("drange", th ? 4 : 3), dev_k = optint("devk", th ? 2 : 1);
   long long total_cases = 0;
   std::string sizes;
   for (int arch = 0; arch < 3; arch++) {
     if (!c.opt("arch").empty() && c.opt("arch") != arch_name(arch)) continue;
-    std::vector<int> full = alphabet(arch, false, true), small = alphabet(arch, true, true), small_emit = alphabet(arch, true, false);
+    std::vector<int> full = alphabet(arch, false, true), small = alphabet(arch, true, true, true, th), small_emit = alphabet(arch, true, false);
     std::vector<int> h;
     // layer 1: every history over the full alphabet (emitter calls + node-list edits)
     { Layer L; h.clear(); explore(arch, 0, h, 0, full, d_full, L); total_cases += L.cases;
@@ -826,6 +853,18 @@ int main(int argc, char** argv) {
       int d = kind == 1 ? d_edit - 1 : d_edit;
       explore(arch, 0, h, bl, small, d, L); total_cases += L.cases;
       bounds += std::string("prefix program of ") + std::to_string(bl) + " ops + all histories to depth " + std::to_string(d) + " over " + std::to_string(small.size()) + " ops; ";
+    }
+    // layer 2b: remove_nodes over ranges of 3 and 4 nodes with the cursor on every node of the range / next to it, then emission
+    {
+      std::vector<int> ra;
+      for (size_t i = 0; i < g_ops[arch].size(); i++) { int t = g_ops[arch][i].type; if (t == O_REMOVE_RANGE || t == O_CUR_FIRST || t == O_CUR_LAST || t == O_CUR_PREV || t == O_CUR_NEXT || t == O_REMOVE) ra.push_back(int(i)); }
+      for (const char* nm : {"bind(L1)", "embed(5 bytes)", "section(1)"}) ra.push_back(find_op(arch, nm));
+      ra.push_back(find_op(arch, arch == AA64 ? "ret x30" : "ret"));
+      for (int kind : {0, 2, 3}) {
+        Layer L; h = base_program(arch, kind); size_t bl = h.size();
+        explore(arch, 0, h, bl, ra, d_range, L); total_cases += L.cases;
+      }
+      bounds += "3 prefix programs + all histories to depth " + std::to_string(d_range) + " over " + std::to_string(ra.size()) + " ops (range removal, cursor moves, emission); ";
     }
     // layer 3: emitter configurations (encoding options, validation, logger)
     for (int cfg = 1; cfg < kNumCfg; cfg++) {
